@@ -10,8 +10,6 @@ from vfw import props
 VERIF = os.path.dirname(os.path.dirname(os.path.abspath(__file__)))
 
 NA = {
-    'C01': 'quantifies over crash points and fsync orderings inside commit/compact/atomic_write; needs a durable-state (crash Hoare logic) model through dyn Storage, std::fs and closures, which neither Verus nor Kani can ingest here (torn-log tolerance, the per-call ingredient, is decided under C02/C17)',
-    'C03': 'postcondition of commit/compact under a nondeterministically failing dyn Storage; the error branch is an immediately-invoked closure capturing &mut self.wal (Verus: closures capturing a mutable reference unsupported), every callee would be an assumed contract',
     'C05': 'thread schedules: Kani has no thread support, Verus would need the code rewritten onto its permission types',
     'C06': 'thread schedules between reader open and compaction cleanup; not expressible as a per-call contract',
     'C08': 'filter evaluation runs through HashMap<String,_> column lookups, format!-built paths and closures; Kani cannot execute std HashMap, Verus would need every reader accessor assumed and those accessors are where the nested-binding semantics live',
